@@ -7,7 +7,7 @@
    manifest is written.  The commit set (which histories write) is C08_commit_set: exactly the histories that received
    records or have a child that wrote; that the session holds records for exactly the histories in scope (folder mode:
    every non-ignored history; -sf: those on the path to the named files) is carried by the lockstep correspondence. *)
-From MHL Require Import Model.Commands Proofs.BaseFacts Proofs.RouteFacts Proofs.CommitFacts Proofs.LoadFacts Proofs.CommitSetFacts Proofs.TreeFacts Proofs.PartitionFacts.
+From MHL Require Import Model.Commands Proofs.BaseFacts Proofs.RouteFacts Proofs.CommitFacts Proofs.LoadFacts Proofs.CommitSetFacts Proofs.TreeFacts Proofs.PartitionFacts Proofs.CreateFacts Proofs.ReloadFacts Proofs.NestedFacts.
 
 Theorem C08_deepest_history : forall hs root_h p, good p root_h ->
   good p (route hs root_h p) /\ (route hs root_h p = root_h \/ In (route hs root_h p) hs) /\
@@ -96,3 +96,17 @@ Definition hR := mkLhist [] None [] [] true.
 Example C08_prefix_named_siblings :
   lh_root (route [hA; hAB] hR [[65%N; 66%N]; [120%N]]) = [[65%N; 66%N]] /\ lh_root (route [hA; hAB] hR [[65%N]; [120%N]]) = [[65%N]].
 Proof. split; reflexivity. Qed.
+
+(* END TO END, any nesting (folder mode): every loaded history whose own folder the traversal reaches -- i.e. which no
+   ignore pattern cuts off -- gets a new generation in the run (its folder event puts the folder's hashes into the root
+   record of that history's new list, and a history with a new list commits).  Together with C08_commit_set (a history
+   writes exactly when it has a new list or a child wrote) and C02_nested_generations_record_exactly_their_share this fixes
+   which histories a run touches and what each of them receives. *)
+Theorem C08_reached_histories_get_a_generation : forall Hb matches C cdig ser h0 kids hs req no_dh ip ifl t' o h,
+  wf_tree C (Dir h0 kids) -> load C cdig (Dir h0 kids) = inl hs ->
+  create_folder Hb matches C cdig ser (Dir h0 kids) req no_dh false ip ifl = (t', o) ->
+  let spec := set_patterns (latest_patterns (lh_gens (root_hist hs))) ip (pattern_file_lines ifl) in
+  In h hs -> In (lh_root h) (dirs_of (events matches C spec [] (Dir h0 kids))) ->
+  exists doc, In (lh_root h, doc) (o_written o).
+Proof. exact visited_histories_write. Qed.
+Print Assumptions C08_reached_histories_get_a_generation.
